@@ -173,6 +173,9 @@ func (c *Ctx) GuardedBy(pkg, typ, mtxField string, rwFields, wFields []string, e
 		if !ok {
 			return "", false
 		}
+		if _, fresh := fa.X.(*ssa.Alloc); fresh {
+			return "", false // initialising a composite literal: the object is not shared yet
+		}
 		if wOnly[fa.Field] {
 			for _, r := range *fa.Referrers() {
 				if s, ok := r.(*ssa.Store); ok && s.Addr == fa {
